@@ -66,18 +66,26 @@ def start_mocking_observations(ctx, sym, mod):
         from .c05 import sandbox_self, stack as stack_of
         me = sandbox_self(ctx, sym, mod, stdout=[older],
                           _module_overrides={'__builtins__': builtins, 'os': True}, data={}, modules={})
-        for name in ('mock_function', '_track_inputs', '_reset_builtins', '_mock_builtins', '_start_patches'):
+        for name in ('mock_function', '_reset_builtins', '_mock_builtins', '_start_patches'):
             symexec.method(me, name, rec.stub(name))
+        tracker = symexec.marker('tracker-closure')
+        symexec.method(me, '_track_inputs', rec.stub('_track_inputs', ret=tracker))
         patch = rec.stub('patch', fn=lambda *a, **k: Obj('patch', target=a[0] if a else None, args=a, kwargs=k))
         fd = symexec.new_fd(sym, mod, calls={'io.StringIO': new_buffer('StringIO'), 'StringIO': new_buffer('StringIO'),
                                              'PrintingStringIO': new_buffer('PrintingStringIO'), 'patch': patch,
                                              'patch.dict': rec.stub('patch.dict', ret=Obj('patch.dict'))},
                             extra={'sys.modules': {'sys': 'real-sys'}})
-        _, raised = symexec.run(fd, sm, [Obj('context', inputs=[])], bound_self=me, what='Sandbox._start_mocking')
+        context_inputs = symexec.marker('context.inputs')
+        _, raised = symexec.run(fd, sm, [Obj('context', inputs=context_inputs)], bound_self=me,
+                                what='Sandbox._start_mocking')
         stack = stack_of(me, 'stdout')
         outs = [e for e in rec.named('patch') if e[1] and e[1][0] == 'sys.stdout']
+        installs = [e for e in rec.named('mock_function') if e[1][:1] == ('input',)]
         yield '[print=%r]' % (print_setting,), {
             'raised': raised, 'stack': stack, 'created': created,
+            'installs_tracker': raised is None and len(installs) == 1 and len(installs[0][1]) >= 2
+            and installs[0][1][1] is tracker and any(e[1][:1] == (context_inputs,)
+                                                      for e in rec.named('_track_inputs')),
             'patched_with_pushed': raised is None and len(stack) == 2 and len(outs) == 1 and len(outs[0][1]) >= 2
             and outs[0][1][1] is stack[-1]}
 
@@ -201,9 +209,6 @@ def r4_input_fifo(ctx, mod, sym):
     inner = inner[0]
     ctx.analysed_function(mod, inner)
     ctx.require(inner.args.vararg is not None, "tracker signature changed")
-    ret = [n for n in outer.body if isinstance(n, ast.Return)]
-    ctx.check(len(ret) == 1 and norm(ret[0].value) == inner.name, 'R4', '_track_inputs:returns-tracker', mod, outer,
-              "_track_inputs does not return the tracker", "input() is not tracked")
     for queue, args in itertools.product((['a', 'b'], ['only'], []), ((), ('Prompt? ',))):
         printed = []
         from ..fdeval import module_resolver
@@ -238,12 +243,11 @@ def r4_input_fifo(ctx, mod, sym):
                                                     'inputs were queued'), construct='_input_tracker')
     # installed for every execution, bound to the context's inputs
     sm = mod.func('Sandbox._start_mocking')
-    ok = any(is_self_call(c, 'mock_function') and c.args and isinstance(c.args[0], ast.Constant)
-             and c.args[0].value == 'input' and isinstance(c.args[1], ast.Call)
-             and is_self_call(c.args[1], '_track_inputs') for c in calls(sm))
-    ctx.check(ok, 'R4', '_start_mocking:installs-tracker', mod, sm,
-              "input is not replaced by the tracker at the start of each execution",
-              "student input() reads the real stdin")
+    for tag, ob in start_mocking_observations(ctx, sym, mod):
+        ctx.check(ob['installs_tracker'], 'R4', '_start_mocking:installs-tracker' + tag, mod, sm,
+                  "at the start of an execution `input` is not replaced (once) by the tracker built for this "
+                  "execution's own input record", "student input() reads the real stdin, or the inputs are recorded "
+                  "under another execution")
 
 
 def r5_queue_operations(ctx, mod):
@@ -273,9 +277,6 @@ def r5_queue_operations(ctx, mod):
                   "queue is %r, the property requires %r" % (me.attrs['inputs'], want),
                   "set_input(%r, clear=%r) on a sandbox whose queue was %r" % (inp, clear, prev),
                   construct='set_input')
-    ci = mod.func('Sandbox.clear_input')
-    ctx.check(any(is_self_call(c, 'set_input') and len(c.args) == 1 and norm(c.args[0]) == 'None' for c in calls(ci)),
-              'R5', 'clear_input', mod, ci, "clear_input is not set_input(None)", "clear_input leaves inputs queued")
     # run(inputs=...) / call(inputs=...): an explicit `inputs` (an empty one included) becomes the queue before the
     # student code runs; `inputs=None` leaves the queue alone
     from .. import symexec
@@ -312,25 +313,59 @@ def r5_queue_operations(ctx, mod):
                           '' if raised is None else ' and raises %s' % raised.kind, want),
                       "set_input(['stale']); run(inputs=[]) - the student's input() reads 'stale' although the "
                       "instructor passed an empty queue")
+    # the queue commands and the two clear operations, executed abstractly on a model sandbox whose set_input is the
+    # real one: what matters is the queue (and the two output views) afterwards
     cmod = ctx.repo.module(COMMANDS)
-    qi = cmod.func('queue_input')
-    ctx.analysed_function(cmod, qi)
-    ok = any(isinstance(c.func, ast.Attribute) and c.func.attr == 'set_input' and norm(c.args[0]) == 'inputs' and
-             any(k.arg == 'clear' and isinstance(k.value, ast.Constant) and k.value.value is False for k in c.keywords)
-             for c in calls(qi))
-    ctx.check(ok, 'R5', 'queue_input', cmod, qi, "queue_input does not call set_input(inputs, clear=False)",
-              "queue_input drops previously queued inputs")
-    si = cmod.func('set_input')
-    ok = any(isinstance(c.func, ast.Attribute) and c.func.attr == 'set_input' and norm(c.args[0]) == 'inputs' and
-             any(k.arg == 'clear' and norm(k.value) == 'clear' for k in c.keywords) for c in calls(si))
-    ctx.check(ok, 'R5', 'commands.set_input', cmod, si, "set_input command does not forward inputs/clear",
-              "set_input(..., clear=False) clears anyway")
-    co = mod.func('Sandbox.clear_output')
-    ok = any(isinstance(n, ast.Assign) and is_self_attr(n.targets[0], 'raw_output') and isinstance(n.value, ast.Constant)
-             and n.value.value == '' for n in body_walk(co)) and \
-        any(is_self_attr(c.func.value, 'output') for c in method_calls(co, 'clear'))
-    ctx.check(ok, 'R5', 'clear_output', mod, co, "clear_output does not reset both views", "stale output remains")
 
+    def model_sandbox(queue):
+        return symexec.self_obj(mod, 'Sandbox', inputs=list(queue), raw_output='old text', output=['old text'])
+
+    def queue_of(sb):
+        q = sb.attrs.get('inputs')
+        return list(q) if isinstance(q, (list, tuple)) else ([] if q is None else q)
+
+    def b_isinstance(o, t):
+        return isinstance(o, t) if isinstance(t, (type, tuple)) else False
+    cases = [
+        ('queue_input', ('a', 'b'), {}, ['q'], ['q', 'a', 'b']),
+        ('queue_input', ('a',), {}, [], ['a']),
+        ('queue_input', (), {}, ['q'], ['q']),
+        ('set_input', (['a', 'b'],), {}, ['q'], ['a', 'b']),
+        ('set_input', (['a'],), {'clear': False}, ['q'], ['q', 'a']),
+        ('set_input', (['a'],), {'clear': True}, ['q'], ['a']),
+        ('set_input', ('a',), {}, ['q'], ['a']),
+        ('clear_input', (), {}, ['q', 'r'], []),
+    ]
+    for fname, args, kwargs, before, want in cases:
+        fn = cmod.func(fname)
+        ctx.analysed_function(cmod, fn)
+        sb = model_sandbox(before)
+        rep = Obj('report')
+        symexec.method(rep, '__getitem__', lambda k, sb=sb: {'sandbox': sb})
+        fd = symexec.new_fd(sym, cmod, calls={'isinstance': b_isinstance}, extra={'MAIN_REPORT': rep})
+        _, raised = symexec.run(fd, fn, list(args), dict(kwargs, report=rep), what='commands.' + fname)
+        got = queue_of(sb)
+        ctx.check(raised is None and got == want, 'R5', 'commands.%s%r%s[queue=%r]' % (
+            fname, args, ('[%s]' % ','.join('%s=%r' % kv for kv in kwargs.items())) if kwargs else '', before), cmod, fn,
+                  "%s(%s) on a sandbox whose queue was %r leaves the queue %r%s; expected %r" % (
+                      fname, ', '.join([repr(a_) for a_ in args] + ['%s=%r' % kv for kv in kwargs.items()]), before,
+                      got, '' if raised is None else ' (raises %s)' % raised.kind, want),
+                  "queue_input drops previously queued inputs / set_input(..., clear=False) clears anyway / "
+                  "clear_input leaves inputs queued")
+    ci = mod.func('Sandbox.clear_input')
+    ctx.analysed_function(mod, ci)
+    sb = model_sandbox(['q', 'r'])
+    _, raised = symexec.run(symexec.new_fd(sym, mod, calls={'isinstance': b_isinstance}), ci, [], bound_self=sb,
+                            what='Sandbox.clear_input')
+    ctx.check(raised is None and queue_of(sb) == [], 'R5', 'clear_input', mod, ci,
+              "Sandbox.clear_input() leaves the queue %r" % (queue_of(sb),), "clear_input leaves inputs queued")
+    co = mod.func('Sandbox.clear_output')
+    ctx.analysed_function(mod, co)
+    sb = model_sandbox([])
+    _, raised = symexec.run(symexec.new_fd(sym, mod), co, [], bound_self=sb, what='Sandbox.clear_output')
+    ctx.check(raised is None and sb.attrs.get('raw_output') == '' and sb.attrs.get('output') == [], 'R5',
+              'clear_output', mod, co, "clear_output leaves raw_output=%r output=%r; both views must be empty" % (
+                  sb.attrs.get('raw_output'), sb.attrs.get('output')), "stale output remains")
 
 def run(ctx):
     mod = ctx.repo.module(SANDBOX)
